@@ -385,12 +385,24 @@ BASE_TRUST = [
 ]
 
 
+def model_files():
+    """Model files: executable definitions only (plus lemmas that do not depend on proofs about
+    generated code). Listed in coq/MODEL_FILES; built before and independently of the proofs."""
+    try:
+        return [l.strip() for l in open(os.path.join(COQ, "MODEL_FILES")) if l.strip() and not l.startswith("#")]
+    except OSError:
+        return []
+
+
 def proof_stage(rep, prop_file, deps_note=""):
     """generators + build + audit + Print Assumptions for one props file."""
     with BuildLock():
         gen = run_generators()
         rep.extra["generators"] = {k: {kk: vv for kk, vv in v.items() if kk != "out"} for k, v in gen.items()}
         target = prop_file[:-2] + ".vo"
+        mok, mlog, mfailed = build([m[:-2] + ".vo" for m in model_files()])
+        if not mok:
+            rep.violation("broken-obligation", f"model file {mfailed} no longer compiles", {"log_tail": mlog[-1500:]}, False)
         # build dependencies (everything the props file requires), then the props file itself
         ok_all, log, failed = build([target])
         ok, out = (False, log) if not ok_all else compile_prop(prop_file)
